@@ -281,6 +281,39 @@ def _sample_point(syms, rnd):
     return pt
 
 
+UFUNC_KIND = {}  # name of an undefined sympy function -> 'smooth' | 'positive'
+
+
+def ufunc(name, *args, kind="smooth"):
+    """uninterpreted smooth user function applied to SE / sympy arguments"""
+    UFUNC_KIND[name] = kind
+    f = sp.Function(name, positive=True) if kind == "positive" else sp.Function(name, real=True)
+    return SE(f(*[_e(a) for a in args]))
+
+
+def _concretise(e, rnd):
+    """replace every undefined function by a random concrete smooth function (cubic polynomial with a sine term;
+    exp(...) for 'positive' ones) so that the expression, including its Derivative/Subs atoms, can be evaluated"""
+    from sympy.core.function import AppliedUndef
+    funcs = {}
+    for a in e.atoms(AppliedUndef):
+        funcs.setdefault(a.func, len(a.args))
+    if not funcs:
+        return e
+    for f, k in funcs.items():
+        xs = sp.symbols(f"_x0:{k}")
+        poly = sp.Rational(rnd.randint(-3, 3), 2)
+        for i, x in enumerate(xs):
+            poly += sp.Rational(rnd.randint(-5, 5), 3) * x + sp.Rational(rnd.randint(-4, 4), 5) * x ** 2 + sp.Rational(rnd.randint(-3, 3), 7) * x ** 3
+            for y in xs[i + 1:]:
+                poly += sp.Rational(rnd.randint(-4, 4), 3) * x * y + sp.Rational(rnd.randint(-2, 2), 5) * x ** 2 * y
+        poly += sp.Rational(rnd.randint(1, 3), 4) * sp.sin(sum(xs) / 3)
+        if UFUNC_KIND.get(f.__name__) == "positive":
+            poly = sp.exp(poly / 40) + sp.Rational(1, 2)
+        e = e.replace(f, sp.Lambda(xs, poly))
+    return e.doit()
+
+
 def numeric_zero(e, tries=6, rnd=None):
     """-> (True, None) if e vanishes (to 40 digits) at the sampled admissible points, else (False, witness point).
     Sampling is deterministic per expression.  A refutation needs TWO independent points where e != 0: a polynomial non-identity
@@ -288,6 +321,9 @@ def numeric_zero(e, tries=6, rnd=None):
     (singular sub-matrix: 0 * infinity forms)."""
     import hashlib
     rnd = rnd or random.Random(int(hashlib.md5(str(e).encode()).hexdigest()[:12], 16))
+    from sympy.core.function import AppliedUndef
+    generic = e
+    has_uf = bool(e.atoms(AppliedUndef))
     syms = sorted(e.free_symbols, key=lambda s: s.name)
     ok = 0
     attempts = 0
@@ -306,7 +342,8 @@ def numeric_zero(e, tries=6, rnd=None):
             except TypeError:
                 continue
         try:
-            v = e.subs(pt)
+            ee = _concretise(generic, rnd) if has_uf else e
+            v = ee.subs(pt)
             v = v if v.is_Rational else sp.N(v, 60)
         except Exception:  # noqa: BLE001
             continue
